@@ -27,7 +27,7 @@ ASSUMPTIONS = ["arguments contain no NUL and no CR, are valid UTF-8 (the API tak
 CTRL = [bytes([c]) for c in list(range(1, 0x20)) + [0x7F] if c not in (13,)]
 META = [b" ", b"'", b'"', b"\\", b"$x", b"${HOME}", b"`id`", b"$(id)", b"!", b"!!", b"*", b"?", b"[a]", b"~", b"#", b";",
         b"&", b"|", b"<", b">", b"(", b")", b"{a,b}", b"\n", b"\t", b"=", b"%s", b"-n", b"--", b"\\n", b"\\c",
-        b"'\n", b"\n'", b"it's\ntwo 'lines'", b"\\'\n", b"\"\n'"]
+        b"'\n", b"\n'", b"it's\ntwo 'lines'", b"\n^", b"first\n^second", b"^a^b", b"\n!x", b"\n#", b"\\'\n", b"\"\n'"]
 UTF = ["é".encode(), "✓".encode(), "😀".encode(), "ä ö".encode()]
 
 
